@@ -1,2 +1,40 @@
-(** C16 — statements only; see Proofs/. *)
-From RRSS Require Import Base.Outcome.
+(** C16 — Visitors see every node exactly once, in order, and stop at the first error.
+    Statements only; proofs in Proofs/VisitLaws.v. *)
+From Coq Require Import List ZArith NArith Bool.
+From RRSS Require Import Base.Outcome Base.Chars Base.F64 Exec.Ops Front.Ast Analysis.Visit Analysis.VisitRecorder Proofs.VisitLaws.
+Import ListNotations.
+
+(** For every visitor (state S, outputs O, errors E, one callback per leaf method) whose outputs
+    form a monoid under combine/default, walking a program with the runner equals feeding the
+    flat field-order event list [events_program p] to the callback one event at a time, combining
+    the results left to right from [default], and stopping at the first error, which is returned
+    unchanged together with the state at that point.  [events_program] is defined by plain
+    structural recursion over every field of every node (else blocks, mutation parameters and
+    destinations, function parameters, list tails, nested subscripts): nothing skipped, nothing twice. *)
+Theorem C16_walk_program_is_fold :
+  forall (S O E : Type) (combine : O -> O -> O) (default : O) (leaf : event -> S -> S * (O + E)),
+    (forall a b c, combine (combine a b) c = combine a (combine b c)) ->
+    (forall a, combine default a = a) ->
+    (forall a, combine a default = a) ->
+    forall p s, walk_program combine default leaf p s = fold_events combine default leaf (events_program p) s.
+Proof. exact (@walk_program_is_fold). Qed.
+
+(** the first error ends the walk: the remaining events are not presented *)
+Theorem C16_first_error_ends_walk :
+  forall (S O E : Type) (combine : O -> O -> O) (leaf : event -> S -> S * (O + E)) ev t s acc K s' e,
+    leaf ev s = (s', inr e) -> fold_k combine leaf (ev :: t) s acc K = (s', inr e).
+Proof. exact (@fold_k_error). Qed.
+
+(** Non-vacuity: the recording visitor of suite VISIT (list outputs, append, []) on a program with an
+    else block, a list tail and a nested subscript, failing at the 6th callback. *)
+Example C16_example :
+  let r := mkRange (mkLoc 1 0) (mkLoc 1 1) in
+  let v s := PIdent (IVar (Simple (lit s))) r in
+  let p := [BNonEmpty [SIf (EPrimary (v "a"%string)) (BNonEmpty [SOutput (EPrimary (v "b"%string))])
+                           (Some (BNonEmpty [SOutput (EBinary OpPlus (EPrimary (v "c"%string)) (EPrimary (v "d"%string)) [EPrimary (PSubscript (PSubscript (v "e"%string) (v "f"%string)) (v "g"%string))])]))]] in
+  length (events_program p) = 8%nat /\
+  fst (record_program None p) = 8%nat /\
+  record_program (Some 5%nat) p = (6%nat, inr 5%nat).
+Proof. vm_compute. repeat split; reflexivity. Qed.
+
+Print Assumptions C16_walk_program_is_fold.
